@@ -2,6 +2,8 @@ package hx
 
 import (
 	"fmt"
+
+	"github.com/ChrisTrenkamp/xsel"
 )
 
 // Tier sizes: number of documents and cases per document.
@@ -98,6 +100,9 @@ func GenProperty(w *Writer, prop string, t Tier, seed uint64) error {
 		} else if _, err := GenExhaustiveAxes(w, 3); err != nil {
 			return err
 		}
+		if _, err := GenExhaustiveAxisPairs(w, map[bool]int{false: 3, true: 4}[t.Thorough], "axis-pairs-small-scope"); err != nil {
+			return err
+		}
 		return runEvalPlans(w, r, t, []evalPlan{
 			{fam: "axis", doc: docDefault, gen: func(g *ExprGen, d *Doc, r *Rng) (Expr, int) {
 				g.Cfg.Preds = 0
@@ -153,6 +158,7 @@ func GenProperty(w *Writer, prop string, t Tier, seed uint64) error {
 				}
 				return e, g.Start
 			}},
+			dslashPredPlan(),
 		})
 	case "C03":
 		return runEvalPlans(w, r, t, []evalPlan{
@@ -216,7 +222,7 @@ func GenProperty(w *Writer, prop string, t Tier, seed uint64) error {
 				return Call{Base: Ctx{}, Name: fn, Args: []Expr{inner}}, g.Start
 			}},
 			{axes: SimpleAxes, fam: "conv-var", doc: numericDoc, gen: func(g *ExprGen, d *Doc, r *Rng) (Expr, int) {
-				v := Pick(r, []string{"n", "m", "s", "b", "v"})
+				v := Pick(r, []string{"n", "m", "s", "b", "v", "u", "u"})
 				fn := Pick(r, []string{"string", "number", "boolean"})
 				var e Expr = Call{Base: Ctx{}, Name: fn, Args: []Expr{Var{Name: v}}}
 				if r.Chance(1, 3) {
@@ -295,7 +301,7 @@ func GenProperty(w *Writer, prop string, t Tier, seed uint64) error {
 			}},
 			{axes: SimpleAxes, fam: "cmp-var", doc: numericDoc, gen: func(g *ExprGen, d *Doc, r *Rng) (Expr, int) {
 				op := Pick(r, []string{"eq", "ne", "lt", "le", "gt", "ge"})
-				vs := []string{"n", "m", "s", "b", "v", "e", "k", "t"}
+				vs := []string{"n", "m", "s", "b", "v", "e", "k", "t", "u"}
 				return Bin{Op: op, L: Var{Name: Pick(r, vs)}, R: Var{Name: Pick(r, vs)}}, 0
 			}},
 		})
@@ -360,6 +366,9 @@ func GenProperty(w *Writer, prop string, t Tier, seed uint64) error {
 			}},
 		})
 	case "C11":
+		if err := GenRebindFamily(w, r, t, "rebind"); err != nil {
+			return err
+		}
 		return runEvalPlans(w, r, t, []evalPlan{
 			{fam: "bind", doc: docDefault, userFns: true, gen: func(g *ExprGen, d *Doc, r *Rng) (Expr, int) {
 				switch r.Intn(6) {
@@ -418,6 +427,20 @@ func GenProperty(w *Writer, prop string, t Tier, seed uint64) error {
 						return st, 0
 					}
 				}
+				if len(g.Env.Ns) > 0 && r.Chance(1, 4) {
+					// a PREFIXED name test on the attribute axis: an attribute without a prefix is in no
+					// namespace, whatever the namespace of the element that carries it (seeded change C11-7)
+					p := Pick(r, g.Env.Ns).Prefix
+					t := Test{Kind: "nsany", A: p}
+					if r.Chance(1, 2) {
+						t = Test{Kind: "qname", A: p, B: Pick(r, g.Cfg.Attrs)}
+					}
+					var st Expr = Step{Base: Step{Base: Root{}, Axis: "descendant-or-self", Test: Test{Kind: "node"}}, Axis: "attribute", Test: t}
+					if r.Chance(1, 2) {
+						st = Call{Base: Ctx{}, Name: "count", Args: []Expr{st}}
+					}
+					return st, 0
+				}
 				g.Cfg.Preds = 2
 				return g.NodeSet(2, false), g.Start
 			}},
@@ -431,6 +454,9 @@ func GenProperty(w *Writer, prop string, t Tier, seed uint64) error {
 					if r.Chance(1, 2) {
 						return Call{Base: Ctx{}, Name: fn}, g.Start
 					}
+					if r.Chance(1, 6) {
+						return Call{Base: Ctx{}, Name: fn, Args: []Expr{Var{Name: "u"}}}, g.Start
+					}
 					return Call{Base: Ctx{}, Name: fn, Args: []Expr{g.NodeSet(1, r.Chance(1, 2))}}, g.Start
 				case 3, 4, 5:
 					return Call{Base: Ctx{}, Name: "lang", Args: []Expr{Lit{S: Pick(r, LangPool)}}}, g.Start
@@ -442,6 +468,11 @@ func GenProperty(w *Writer, prop string, t Tier, seed uint64) error {
 			}},
 		})
 	case "C08":
+		// abbreviated forms equal to their expansions, where the expansion matters: `//` before a
+		// positional predicate
+		if err := runEvalPlans(w, r, Tier{Docs: t.Docs / 4, PerDoc: t.PerDoc, Thorough: t.Thorough}, []evalPlan{dslashPredPlan()}); err != nil {
+			return err
+		}
 		if err := GenParseFamily(w, r, t); err != nil {
 			return err
 		}
@@ -463,11 +494,26 @@ func GenProperty(w *Writer, prop string, t Tier, seed uint64) error {
 	case "C14":
 		return GenCliConcFamily(w, r, t)
 	case "C13":
+		// results must not depend on what ran before: the same compiled expression (and the same
+		// spelling of a prefixed name) under changing bindings
+		if err := GenRebindFamily(w, r, t, "history-rebind"); err != nil {
+			return err
+		}
 		return GenHistoryFamily(w, r, t)
 	case "C18":
+		// composition of two steps from every start node of every small document: the second step sees
+		// the first one's nodes in the order that step delivered them
+		if _, err := GenExhaustiveAxisPairs(w, map[bool]int{false: 3, true: 4}[t.Thorough], "axis-pairs-small-scope"); err != nil {
+			return err
+		}
 		return runEvalPlans(w, r, t, []evalPlan{
 			{fam: "subq", doc: docDefault, gen: func(g *ExprGen, d *Doc, r *Rng) (Expr, int) {
 				g.Cfg.Preds = 3
+				if r.Chance(1, 8) {
+					// a step from a node-set the caller assembled in another order
+					ax := Pick(r, AllAxes)
+					return Step{Base: Var{Name: "u"}, Axis: ax, Test: g.Test(ax)}, g.Start
+				}
 				switch r.Intn(5) {
 				case 0:
 					return Call{Base: Ctx{}, Name: Pick(r, []string{"position", "last"})}, g.Start
@@ -479,6 +525,96 @@ func GenProperty(w *Writer, prop string, t Tier, seed uint64) error {
 		})
 	}
 	return fmt.Errorf("no generator for %s", prop)
+}
+
+// dslashPredPlan: `P//T[positional predicate]` in ABBREVIATED spelling (`//`, no `child::`), from the
+// root, from a path and from the context node (`.//T[1]`).  `//` is `/descendant-or-self::node()/`, so
+// the predicate counts the T children of EACH descendant, not all T descendants (seeded change
+// C08-12 evaluated the abbreviated form as `descendant::T[…]`).
+func dslashPredPlan() evalPlan {
+	return evalPlan{fam: "dslash-pred", doc: docDefault,
+		style: func(r *Rng) *Style { return &Style{R: r, Abbrev: true, Force: true} },
+		gen: func(g *ExprGen, d *Doc, r *Rng) (Expr, int) {
+			start := 0
+			var base Expr
+			switch r.Intn(4) {
+			case 0:
+				base = Root{}
+			case 1:
+				base = Step{Base: Root{}, Axis: "child", Test: Test{Kind: "any"}}
+			case 2:
+				base = Step{Base: Ctx{}, Axis: "self", Test: Test{Kind: "node"}}
+				start = g.Start
+			default:
+				base = Step{Base: Ctx{}, Axis: "child", Test: Test{Kind: Pick(r, []string{"any", "node"})}}
+				if r.Chance(1, 2) {
+					start = g.Start
+				}
+			}
+			dos := Step{Base: base, Axis: "descendant-or-self", Test: Test{Kind: "node"}}
+			test := Pick(r, []Test{{Kind: "any"}, {Kind: "name", A: Pick(r, g.Cfg.Names)}, {Kind: "node"}, {Kind: "text"}, {Kind: "name", A: Pick(r, g.Cfg.Names)}})
+			pos := Call{Base: Ctx{}, Name: "position"}
+			last := Call{Base: Ctx{}, Name: "last"}
+			pred := Pick(r, []Expr{NumLit{Text: "1"}, NumLit{Text: "2"}, last, Bin{Op: "eq", L: pos, R: NumLit{Text: "1"}}, Bin{Op: "eq", L: pos, R: last},
+				Bin{Op: "lt", L: pos, R: NumLit{Text: "3"}}, Bin{Op: "sub", L: last, R: NumLit{Text: "1"}}, Bin{Op: "gt", L: pos, R: NumLit{Text: "1"}}})
+			var e Expr = Step{Base: dos, Axis: "child", Test: test, Preds: []Expr{pred}}
+			switch r.Intn(4) {
+			case 0:
+				e = Call{Base: Ctx{}, Name: "count", Args: []Expr{e}}
+			case 1:
+				e = Step{Base: e, Axis: Pick(r, []string{"child", "parent", "self"}), Test: Test{Kind: "node"}}
+			}
+			return e, start
+		}}
+}
+
+// GenRebindFamily: ONE compiled expression, executed under a sequence of binding environments that
+// bind the prefix it uses to different URIs, or not at all, and back again.  Every execution must
+// resolve the names through the bindings of THAT execution (C11), whatever earlier executions of the
+// same compiled expression — or of the same spelling in another expression — resolved them to (C13:
+// seeded changes C11-6 and C13-7 cached the expanded name in the compiled expression / process-wide).
+func GenRebindFamily(w *Writer, r *Rng, t Tier, fam string) error {
+	n := t.Docs / 6
+	if n < 8 {
+		n = 8
+	}
+	for di := 0; di < n; di++ {
+		dr := r.Fork()
+		doc, err := w.NewDoc(fmt.Sprintf("rb%d", di), GenEvents(dr, DefaultDocCfg()))
+		if err != nil {
+			return err
+		}
+		vars := []VarBind{{"urn:a", "k", Value{Kind: "num", Num: 1}}, {"urn:b", "k", Value{Kind: "num", Num: 2}}, {"", "k", Value{Kind: "num", Num: 3}},
+			{"urn:a", "s", Value{Kind: "str", Str: "A"}}, {"urn:b", "s", Value{Kind: "str", Str: "B"}}}
+		fns := []FnBind{{Uri: "urn:a", Local: "const", Kind: "const", Arg: "fa"}, {Uri: "urn:b", Local: "const", Kind: "const", Arg: "fb"},
+			{Uri: "urn:a", Local: "argcount", Kind: "argcount"}}
+		mk := func(ns ...NsBind) Env { return Env{Ns: ns, Vars: vars, Fns: fns} }
+		envs := []Env{mk(NsBind{"p", "urn:a"}), mk(NsBind{"p", "urn:b"}), mk(), mk(NsBind{"q", "urn:a"}, NsBind{"p", "urn:b"}), mk(NsBind{"p", "urn:a"}), mk(NsBind{"p", "http://x/y"})}
+		pv := Var{HasPfx: true, Pfx: "p", Name: "k"}
+		ps := Var{HasPfx: true, Pfx: "p", Name: "s"}
+		pf := Call{Base: Ctx{}, HasPfx: true, Pfx: "p", Name: "const"}
+		exprs := []Expr{pv, ps, pf, Bin{Op: "add", L: pv, R: NumLit{Text: "10"}}, Call{Base: Ctx{}, Name: "concat", Args: []Expr{ps, pf}},
+			Call{Base: Ctx{}, HasPfx: true, Pfx: "p", Name: "argcount", Args: []Expr{pv}},
+			Step{Base: Step{Base: Root{}, Axis: "descendant-or-self", Test: Test{Kind: "node"}}, Axis: "child", Test: Test{Kind: "nsany", A: "p"}, Preds: []Expr{Bin{Op: "ge", L: pv, R: NumLit{Text: "1"}}}}}
+		for _, e := range exprs {
+			text := Render(e, &Style{})
+			built, berr := xsel.BuildExpr(text)
+			order := []int{0, 1, 2, 3, 4, 5}
+			for i := len(order) - 1; i > 0; i-- {
+				j := dr.Intn(i + 1)
+				order[i], order[j] = order[j], order[i]
+			}
+			order = append(order, order[0])
+			for _, k := range order {
+				c := EvalCase{Fam: fam, Doc: doc, Env: envs[k], Start: 0, E: e, Xpath: text}
+				if berr == nil {
+					c.Built = &built
+				}
+				w.Eval(c)
+			}
+		}
+	}
+	return nil
 }
 
 func strArgNum(g *ExprGen, r *Rng) Expr {
